@@ -31,8 +31,9 @@ func init() {
 	register(&Rule{
 		ID: "ORD-4",
 		Doc: "normaliser is last: a normaliser is recognised by shape (min-reduction over Node.Layer of all nodes, then Node.Layer -= that). In every function that calls one, any later modification of Node.Layer (store, or call whose Mod contains Node.Layer) must either store only values provably >= 0 " +
-			"(max-reductions seeded with a non-negative constant, counters above them) or be followed on every path by another normaliser call",
-		Floor: 2,
+			"(max-reductions seeded with a non-negative constant, counters above them) or be followed on every path by another normaliser call; " +
+			"conversely the vertical balancer (degree-guarded store of Node.Layer), whose window is seeded with the absolute layer 0, must be called on freshly normalised layers (a normaliser call dominates it with no Layer modification in between)",
+		Floor: 3,
 		Ctl:   []string{"internal__phase2__ord4.go.txt"},
 		Run:   runOrd4,
 	})
@@ -620,6 +621,106 @@ func runOrd4(m *Model, r *RuleResult) {
 		} else {
 			r.add(Obligation{Key: key, Pos: m.Pos(normCalls[0].Pos()), Desc: fmt.Sprintf("%d later modification(s) of Node.Layer keep it >= 0 or are re-normalised", nmods), Verdict: "holds", Control: ctl})
 		}
+	}
+	ord4BalancerInput(m, r, norm)
+}
+
+// degreeGuardedLayerStore: the function stores Node.Layer under Indeg(n) == Outdeg(n) of the same node (vertical balancing).
+func degreeGuardedLayerStore(f *ssa.Function) bool {
+	found := false
+	eachInstr(f, func(in ssa.Instruction) {
+		st, ok := in.(*ssa.Store)
+		if !ok {
+			return
+		}
+		fa, ok := st.Addr.(*ssa.FieldAddr)
+		if !ok {
+			return
+		}
+		node, steps := fieldChain(fa)
+		if locOfSteps(steps) != igNode+".Layer" {
+			return
+		}
+		for _, d := range transitiveControlDeps(st.Block()) {
+			bo, ok := d.If.Cond.(*ssa.BinOp)
+			if !ok || bo.Op != token.EQL || d.Branch != 0 {
+				continue
+			}
+			cx, ok1 := bo.X.(*ssa.Call)
+			cy, ok2 := bo.Y.(*ssa.Call)
+			if ok1 && ok2 && len(cx.Call.Args) == 1 && len(cy.Call.Args) == 1 && cx.Call.Args[0] == node && cy.Call.Args[0] == node {
+				found = true
+			}
+		}
+	})
+	return found
+}
+
+// ord4BalancerInput: the vertical balancer seeds its feasible window with the absolute layer 0 and the maximum layer, so it is
+// only correct on normalised layers: every call of it must be dominated by a normaliser call with no other modification of
+// Node.Layer in between.
+func ord4BalancerInput(m *Model, r *RuleResult, norm map[*ssa.Function]bool) {
+	n := 0
+	for _, f := range m.Src {
+		var normCalls, balCalls []ssa.CallInstruction
+		eachInstr(f, func(in ssa.Instruction) {
+			if ci, ok := in.(ssa.CallInstruction); ok {
+				for _, cal := range m.Callees(ci) {
+					if norm[cal] {
+						normCalls = append(normCalls, ci)
+					} else if degreeGuardedLayerStore(cal) {
+						balCalls = append(balCalls, ci)
+					}
+				}
+			}
+		})
+		for _, bc := range balCalls {
+			n++
+			ctl := m.FuncIsPosctl(f)
+			key := "balancer-input:" + funcKey(f)
+			ok := false
+			why := "no normaliser call dominates the balancing call"
+			for _, nc := range normCalls {
+				if !instrDominates(nc, bc) {
+					continue
+				}
+				clean := true
+				eachInstr(f, func(in ssa.Instruction) {
+					if in == ssa.Instruction(nc) || in == ssa.Instruction(bc) || !instrReaches(nc, in) || !instrReaches(in, bc) {
+						return
+					}
+					switch x := in.(type) {
+					case *ssa.Store:
+						if fa, isFA := x.Addr.(*ssa.FieldAddr); isFA {
+							_, steps := fieldChain(fa)
+							if locOfSteps(steps) == igNode+".Layer" {
+								clean = false
+								why = "Node.Layer is stored at " + m.Pos(x.Pos()) + " between normalisation and balancing"
+							}
+						}
+					case ssa.CallInstruction:
+						for _, cal := range m.Callees(x) {
+							if e := m.effects[cal]; e != nil && e.Mod[igNode+".Layer"] && !norm[cal] {
+								clean = false
+								why = funcKey(cal) + " modifies Node.Layer between normalisation and balancing"
+							}
+						}
+					}
+				})
+				if clean {
+					ok = true
+				}
+			}
+			if ok {
+				r.add(Obligation{Key: key, Pos: m.Pos(bc.Pos()), Desc: "the vertical balancer runs on freshly normalised layers (its window is seeded with the absolute layer 0)", Verdict: "holds", Control: ctl})
+			} else {
+				r.add(Obligation{Key: key, Pos: m.Pos(bc.Pos()), Desc: "the vertical balancer must run on normalised layers", Verdict: "violation",
+					Detail: why + ": with negative layers its window [max(0, ...), ...] is wrong and a node can be moved onto or below its successors (edge inside a band / upward)", Control: ctl})
+			}
+		}
+	}
+	if n == 0 {
+		r.Notes = append(r.Notes, "no call of a degree-guarded balancer found")
 	}
 }
 
